@@ -30,7 +30,7 @@ pub struct C11 {
     pub keep: Vec<usize>,
 }
 
-fn m_complement(g: &G) -> G {
+pub fn m_complement(g: &G) -> G {
     let mut c = G {
         verts: g.verts.clone(),
         arcs: Default::default(),
@@ -52,7 +52,7 @@ fn m_converse(g: &G) -> G {
     }
 }
 
-fn m_union(g: &G, h: &G) -> G {
+pub fn m_union(g: &G, h: &G) -> G {
     let mut u = g.clone();
     u.verts.extend(h.verts.iter().copied());
     for &a in h.arcs.keys() {
